@@ -1497,6 +1497,12 @@ def run(ctx):
         spec_fail += bad_fkeys
     n_eval += n_fkeys
     ctx.cov["float_key_histories"] = n_fkeys
+    n_mel, bad_mel = check_mapped_elements(ctx, binary, base)
+    if bad_mel:
+        spec_found = True
+        spec_fail += bad_mel
+    n_eval += n_mel
+    ctx.cov["mapped_element_programs"] = n_mel
     class_mismatch = [r for r in res if r.get("compiled") and r.get(which + "_ok") and not r.get(which + "_class_ok")]
     ctx.cov["failure_class_mismatches"] = len(class_mismatch)
     ctx.cov["failure_class_mismatch_examples"] = [{"program": r["text"][-300:], "model": r["model"][which]["fail"], "rc": r["rc"], "stderr": r["stderr"][:200]}
@@ -1645,6 +1651,41 @@ def check_float_keys(ctx, binary, base):
                     "observed_stdout_lines": got, "observed_rc": rc, "observed_stderr_tail": se[-300:],
                     "how": "save `program` as x.ms in an empty directory and run `mscript run x.ms -q`"})
     return len(hists), bad
+
+
+# --------------------------------------------------------------------------- the elements of the list `map` returns
+
+# `map` is one of the list operations of the property: its result is an ordinary list whose elements are ordinary values of
+# the callback's result type.  An element read back (constant / variable index, `remove`) is indexed, written through,
+# measured, compared, unwrapped like any value of that type; a list / map element is shared with the collected list.
+L12 = "l: [int...] = [1, 2, 3]\n"
+MAPPED_ELEMENT_CASES = [
+    ("list", "index", L12 + "ls = l.map(fn(x: int) -> [int...] {\n  return [x, x * 10]\n})\nq = ls[1]\nprint q[1]\nk = 2\nr = ls[k]\nprint r[0] + r[1]\nprint q.len()\nprint q == [2, 20]\n", ["20", "33", "2", "true"]),
+    ("list", "index", L12 + "ls = l.map(fn(x: int) -> [int...] {\n  return [x, x * 10]\n})\nrow = ls[0]\nrow[1] = 50\nrow[0] += 4\nrow.push(7)\nprint ls\nprint row\nprint ls.len()\n", ["[[5, 50, 7], [2, 20], [3, 30]]", "[5, 50, 7]", "3"]),
+    ("list", "remove", L12 + "ls = l.map(fn(x: int) -> [int...] {\n  return [x, x * 10]\n})\nq = ls.remove(1)\nprint q[1]\nq[0] = 9\nprint q\nprint ls\n", ["20", "[9, 20]", "[[1, 10], [3, 30]]"]),
+    ("map", "index", L12 + "ms = l.map(fn(x: int) -> map[str, int] {\n  return map[str, int] { \"a\": x }\n})\nmm = ms[2]\nprint mm[\"a\"]\nmm[\"b\"] = 8\nprint mm.len()\nother = ms[2]\nprint other.contains_key(\"b\")\nprint other[\"b\"]\n", ["3", "2", "true", "8"]),
+    ("str", "index", L12 + "ss = l.map(fn(x: int) -> str {\n  return \"ab\" * x\n})\nt = ss[1]\nprint t[2]\nprint t.len()\nprint t + \"!\"\nk = 0\nu = ss[k]\nprint u[1]\n", ["a", "4", "abab!", "b"]),
+    ("int", "index", L12 + "n = l.map(fn(x: int) -> int {\n  return x * 2\n})\nv = n[1]\nprint v + 1\nn[0] = 9\nn[1] += 1\nprint n\nprint n.index_of(6)\nprint n == [9, 5, 6]\n", ["5", "[9, 5, 6]", "2", "true"]),
+    ("optional", "index", L12 + "o = l.map(fn(x: int) -> int? {\n  if x == 1 {\n    return nil\n  }\n  return x\n})\nw = o[1]\nprint w\nprint (get w) + 1\nz = o[0]\nprint z\nprint z or 7\n", ["2", "3", "nil", "7"]),
+    ("list-of-map-result", "index", L12 + "ll = l.map(fn(x: int) -> [int...] {\n  return [x]\n})\nl3 = ll.map(fn(q: [int...]) -> [[int...]...] {\n  return [q, q]\n})\na = l3[1]\nb = a[0]\nprint b[0]\nb[0] = 40\nprint ll\nprint a\n", ["2", "[[1], [40], [3]]", "[[40], [40]]"]),
+]
+
+
+def check_mapped_elements(ctx, binary, base):
+    res = programs.pmap(lambda c: run_impl(binary, base, c[2]), MAPPED_ELEMENT_CASES)
+    bad = 0
+    for (kind, how, text, exp), (rc, so, se) in zip(MAPPED_ELEMENT_CASES, res):
+        got = out_lines(so)
+        if rc == 0 and got == exp:
+            continue
+        bad += 1
+        refused = not compiled(rc, so, se)
+        ctx.report("map-result-element:" + ("unusable-after-" + how if refused else "observation-differs"),
+                   "an element (%s) taken by %s out of the list `map` returned must behave like any value of its type: %s; rc %d"
+                   % (kind, how, "the program is refused: " + " ".join(l.strip() for l in (so + se).split("\n") if l.strip().startswith("="))[:300] if refused else diff_msg(exp, got), rc),
+                   {"element_kind": kind, "program": text, "expected_stdout_lines(specification)": exp, "observed_stdout_lines": [] if refused else got, "observed_rc": rc,
+                    "observed_stderr_tail": (so + se)[-400:] if refused else se[-300:], "how": "save `program` as x.ms in an empty directory and run `mscript run x.ms -q`"})
+    return len(MAPPED_ELEMENT_CASES), bad
 
 
 
